@@ -489,9 +489,10 @@ func lemmaRoundTripWatchUnwatch() (e1, e2, e3, e4 error, pos, n int) {
 //@   ensures  rwf(r)
 //@ func (*Reader).Remaining
 //@   requires rwf(r)
+//@   ensures  len(result) <= len(r.buf) - r.pos
 //@ func (*Reader).RemainingSize
 //@   requires rwf(r)
-//@   ensures  result >= 0
+//@   ensures  result >= 0 && result <= len(r.buf) - r.pos
 
 // ---------------------------------------------------------------------------------------------
 // C13: whole messages. The per-type reader / writer registered for a message is a function value (its round trip is
